@@ -1,7 +1,7 @@
 (* C14 - Migration output is well-formed, minimal and deterministic.  (partial: the alias allocator; the rest by differential runs) *)
 From Coq Require Import String List Arith Bool Permutation.
 Import ListNotations.
-Require Import Dec TypeConv Determinism.
+Require Import Dec TypeConv Determinism MapLoops Census_gen.
 Open Scope string_scope.
 
 (* After ANY sequence of AddImport requests (all merged files of one migration): the path -> alias table is a function,
@@ -47,3 +47,9 @@ Print Assumptions C14_imports_order_independent.
 Example C14_collision : option_map fst (add_all tc0 [("a/config", "config"); ("b/config", "config"); ("a/config", "config"); ("c/config", "config"); ("x/config_1", "config_1")])
   = Some ["config"; "config_1"; "config"; "config_2"; "config_1_1"].
 Proof. vm_compute. reflexivity. Qed.
+
+(* every iteration over a Go map in internal/migrate (found in the current source by the census) belongs to a class of loop
+   whose effect is the same for every iteration order; see Properties/C11.v for the generator's packages *)
+Theorem C14_every_map_iteration_order_independent : forall site c, In (site, c) census_migrate -> exists cl, c = Some cl /\ class_sound cl.
+Proof. exact (all_classified_sound _ census_migrate eq_refl). Qed.
+Print Assumptions C14_every_map_iteration_order_independent.
